@@ -220,6 +220,14 @@ pub fn stress(args: &[String]) -> i32 {
                     (_, false) => anstream::stdout().write_all(line_frags(t, i, c, &a, &b).concat().as_bytes()).expect("write_all"),
                     (_, true) => anstream::stderr().write_all(line_frags(t, i, c, &a, &b).concat().as_bytes()).expect("write_all"),
                 }
+                // a message without arguments (`Arguments::as_str()` is `Some`): still one contiguous line
+                if i % 4 == 3 {
+                    if err {
+                        anstream::eprintln!("<L>\x1b[35mliteral line\x1b[0m</L>");
+                    } else {
+                        anstream::println!("<L>\x1b[35mliteral line\x1b[0m</L>");
+                    }
+                }
             }
         }));
     }
